@@ -9,8 +9,11 @@
                at once instead of staying in the buffer (bit 1: NoAsyncFlush, not observable)
      L       = (accounts storages), accounts = ((k v) ...) ascending, v = () | (x<blob>),
                storages = ((acct ((k v) ...)) ...)
-   obs   (fast binary), each (0 ((k x<blob>) ...)) or (1 errclass) *)
-From GV Require Import Lib.Sx PathDB.Iter.
+   obs   (fast binary), each (0 ((k x<blob>) ...)) or (1 errclass)
+   case  (2 wb (op ...))   a history on one pathdb database (PathDB/IterHist.v):
+     op = (0 L) Update | (1) Commit(head) | (2 n) cap(head, n) | (3 kind acct seek skip) iterate
+     obs = ((fast binary) ...) one pair per iterate op, in order *)
+From GV Require Import Lib.Sx PathDB.Iter PathDB.IterHist.
 
 Definition dec_value (s : sx) : option value :=
   match s with
@@ -83,8 +86,34 @@ Definition physical (variant : N) (flushcap : bool) (ls : list layer) (c n : nat
     let buffer := fold_left merge_states (firstn (r - n) rest) [] in
     rev (skipn (r - n) rest) ++ [buffer; disk].
 
+Definition layer_ok (l : layer * list (key * layer)) : bool :=
+  strictly_asc (key_list (fst l)) && strictly_asc (map fst (snd l)) &&
+  forallb (fun am => strictly_asc (key_list (snd am))) (snd l).
+
+Definition dec_op (s : sx) : option hop :=
+  match s with
+  | SL [SI 0%Z; l] =>
+      match dec_layer l with
+      | Some l => if layer_ok l then Some (HUpdate (fst l) (snd l)) else None
+      | None => None end
+  | SL [SI 1%Z] => Some HCommit
+  | SL [SI 2%Z; n] => match sx_nat n with Some n => Some (HCap n) | None => None end
+  | SL [SI 3%Z; kind; acct; seek; skip] =>
+      match sx_N kind, sx_N acct, sx_N seek, sx_nat skip with
+      | Some kind, Some acct, Some seek, Some skip => Some (HIter kind acct seek skip)
+      | _, _, _, _ => None end
+  | _ => None
+  end.
+
 Definition C22_run (c : sx) : sx :=
   match c with
+  | SL [SI 2%Z; wb; SL ops] =>
+      match sx_N wb, opt_map dec_op ops with
+      | Some wb, Some ops =>
+          SL (map (fun fb => SL [enc_res (fst fb); enc_res (snd fb)])
+                  (snd (h_run (negb (N.odd wb)) h_empty ops)))
+      | _, _ => SErr 0
+      end
   | SL [variant; kind; seek; acct; cc; n; wb; SL layers] =>
       match sx_N variant, sx_N kind, sx_N seek, sx_N acct, sx_nat cc, sx_nat n, sx_N wb,
             opt_map dec_layer layers with
